@@ -201,6 +201,11 @@ type Knobs struct {
 	Rewidth int // probability (in 1/16) that an item head is wider than necessary
 	Reorder bool
 	A0      bool // spell an empty protected header h'a0' instead of h''
+	// SignCanonical makes the peer byzantine in one specific, plausible way:
+	// it signs over the deterministic re-encoding of its protected headers
+	// while sending them in whatever encoding the other knobs chose.  Such a
+	// signature is NOT valid over the received bytes.
+	SignCanonical bool
 }
 
 func genKnobs(t *tape.Tape) Knobs {
@@ -266,6 +271,7 @@ func applyKnobs(k Knobs, it *refcbor.Item) (widened, reordered int) {
 // ForeignLayer is a layer as the foreign peer put it on the wire.
 type ForeignLayer struct {
 	ProtContent []byte        // content of the protected bstr
+	SignContent []byte        // what the peer puts into its Sig_structure (== ProtContent unless byzantine)
 	ProtBstr    *refcbor.Item // the bstr item (head width knob applied)
 	Unprot      *refcbor.Item
 }
@@ -287,6 +293,12 @@ func (r *Run) foreignLayer(l Layer, k Knobs) ForeignLayer {
 			r.Probe("foreign-protected-noncanonical")
 		}
 		fl.ProtContent = refcbor.Encode(pm)
+	}
+	fl.SignContent = fl.ProtContent
+	if k.SignCanonical && len(l.Prot) > 0 {
+		fl.SignContent = refcbor.CanonicalBytes(bucketItem(l.Prot.clone(), nil))
+	} else if k.SignCanonical {
+		fl.SignContent = []byte{}
 	}
 	fl.ProtBstr = refcbor.Bstr(fl.ProtContent)
 	if k.T != nil && k.Rewidth > 0 && k.T.Choose(16, "knob.prot.head") < k.Rewidth {
@@ -354,7 +366,7 @@ func (r *Run) ForeignIssue(s *MsgSpec, k Knobs, ent *Entropy, detached bool, csi
 		var sigs []*refcbor.Item
 		for _, sg := range s.Signers {
 			sl := r.foreignLayer(sg.Layer, k)
-			tbs := refcose.SigStructure(body.ProtContent, sl.ProtContent, s.External, s.Payload)
+			tbs := refcose.SigStructure(body.SignContent, sl.SignContent, s.External, s.Payload)
 			sig := foreignSign(sg.Key, tbs, ent)
 			if csig != nil {
 				if c := csig(&ForeignParent{Kind: refcose.PSignature, Prot: sl.ProtContent, Payload: sig}); c != nil {
@@ -374,7 +386,7 @@ func (r *Run) ForeignIssue(s *MsgSpec, k Knobs, ent *Entropy, detached bool, csi
 		}
 		arr = refcbor.Array(body.ProtBstr, body.Unprot, payloadItem, sa)
 	} else {
-		tbs := refcose.SigStructure1(body.ProtContent, s.External, s.Payload)
+		tbs := refcose.SigStructure1(body.SignContent, s.External, s.Payload)
 		sig := foreignSign(s.Key, tbs, ent)
 		if csig != nil {
 			if c := csig(&ForeignParent{Kind: refcose.PSign1, Prot: body.ProtContent, Payload: s.Payload, Sig: sig}); c != nil {
